@@ -10,6 +10,9 @@ has n_subsets = #distinct indices, subset i carries the values of the i-th small
 (all-ones == missing per field width), every other parameter but the lengths is unchanged, the
 source message renders the same before and after, out-of-range collections are refused with a
 PyBufrKitError; the `pybufrkit subset` command is exercised through a subprocess.
+Histories (harness/c10hist.py): the same comparison and the same oracle over sequences of operations on ONE message object
+with one Encoder/Decoder - several subset() calls before any result is encoded, results encoded in another order / twice,
+results changed by the caller, refused calls and source renderings / re-encodings in between, subsets of subsets.
 """
 import copy
 import glob
@@ -27,7 +30,9 @@ from harness import core
 from harness import c10hist
 
 PROP = 'C10'
-HISTORIES = {'quick': ['fresh', 'used'], 'thorough': ['fresh', 'fresh-b', 'used', 'used-b']}
+# histories per source message: on the object that served the single calls ('used..', same task) and on a freshly decoded
+# object ('fresh..', a task of its own so that a slow message is spread over two processes)
+HISTORIES = {'quick': {'used': ['used'], 'fresh': ['fresh']}, 'thorough': {'used': ['used', 'used-b'], 'fresh': ['fresh', 'fresh-b']}}
 
 META = dict(
     text='Kernel-checked theorems over the model of BufrMessage.subset for every message shape (any number of sections, '
@@ -35,15 +40,25 @@ META = dict(
          'whose template data are the rows at the sorted distinct indices in increasing order, whose n_subsets is the number of '
          'distinct indices and whose every other parameter (descriptors, compression flag, identification) is the source value; '
          'any index < 0 or >= n is refused with a library error; selecting all indices gives the message\'s own data; '
-         'subsetting a subset equals subsetting the source with the composed indices; the source is only read. '
-         'Correspondence: subset() vs the model on sample files (compressed and not) and synthesised 2..8-subset messages x '
+         'subsetting a subset equals subsetting the source with the composed indices; the source is only read; and '
+         '(C10_reencode_decode, composing with the walk-level round trips of C03/C05) for selected rows that the checked '
+         'encoder accepts, compressed or not, the decoder reads back from the encoder\'s bits exactly as many subsets as there '
+         'are distinct indices, the i-th being value for value the canonical form of the source subset with the i-th smallest '
+         'index. Correspondence: subset() vs the model on sample files (compressed and not) and synthesised 2..8-subset messages x '
          'index collections (single, full, first/last, reversed, repeats, random, out of range by one on each side, negative), '
-         'exact comparison; the re-encode/decode part of the property (values of the i-th smallest index modulo all-ones = missing, '
-         'metadata unchanged, source unchanged, refusal) is evaluated directly on the implementation, incl. the CLI command.',
-    technique='Lean 4 theorems (induction over parameter lists, sorted-distinct uniqueness) + checked model/implementation '
-              'correspondence + implementation-level oracle through Encoder/Decoder',
-    note='The coder (re-packing of the reduced columns by the encoder and its decoding) is not modelled here; that part of C10 '
-         'is observed on the implementation only (oracle) and is covered by the coder properties C01-C05.')
+         'exact comparison, each result consumed at once AND within operation histories on one message object with one '
+         'Encoder/Decoder (several subset() calls - equal and different collections, refused ones in between, subsets of '
+         'subsets - before any result is encoded; results encoded in another order, twice, after the caller changed other '
+         'results; the source rendered / re-encoded before, between and after): every result, as returned and as it is at the '
+         'end of the history, equals the model\'s pure function of (message, indices). The re-encode/decode part of the property '
+         '(values of the i-th smallest index modulo all-ones = missing, metadata unchanged, source unchanged, refusal) is '
+         'evaluated directly on the implementation for every encode of every history, incl. the CLI command.',
+    technique='Lean 4 theorems (induction over parameter lists, sorted-distinct uniqueness, composition with the coder round-trip '
+              'theorems) + checked model/implementation correspondence over single calls and operation histories + '
+              'implementation-level oracle through Encoder/Decoder',
+    note='C10_reencode_decode is stated for the walk-level coder model (data section; hypothesis: the checked encoder accepts the '
+         'selected rows); the section framing around it (C04) and the float layer are not part of it. Aliasing is modelled by '
+         'value: what sharing of lists between results / source could break is observed through the histories.')
 
 QUICK_MAX_BYTES = 30000
 QUICK_FILES = 40
@@ -378,7 +393,7 @@ def allones_with_missing(rows0, fields0, sel):
     return False
 
 
-def check_case(st, m, rows0, fields0, meta0, n, I):
+def check_case(st, m, rows0, fields0, meta0, n, I, oracle=True):
     """Evaluate the property on the implementation for one index collection.
     Returns (impl_result_raw_or_tag, problems, info); problems = list of (kind, text, signature extras)."""
     from pybufrkit.errors import PyBufrKitError
@@ -400,7 +415,7 @@ def check_case(st, m, rows0, fields0, meta0, n, I):
     if not in_range(I, n):
         problems.append(('refusal', 'out-of-range collection %r accepted for a %d-subset message' % (I[:12], n), {'how': 'accepted'}))
         return data, problems, info
-    if not st.get('reencodable', True):
+    if not st.get('reencodable', True) or not oracle:
         return data, problems, info
     encode_decode_compare(st, data, rows0, fields0, meta0, n, bool(m.is_compressed.value), I, problems, info)
     return data, problems, info
@@ -487,7 +502,7 @@ def run_source(task):
     """One source message: all its index collections on the implementation and on the model.  Runs in a worker."""
     src, seed, tier = task['src'], task['seed'], task['tier']
     st = _impl()
-    res = {'src': src, 'cases': [], 'problems': [], 'skipped': None}
+    res = {'src': src, 'cases': [], 'problems': [], 'skipped': None, 'part': task.get('part')}
     try:
         with open(os.path.join(core.REPO, src['file']), 'rb') as f:
             data = f.read()
@@ -536,15 +551,20 @@ def run_source(task):
     only_hist = task.get('only_history')
     if 'only' in task:
         colls = [('replay', task['only'])]
-    elif only_hist and not only_hist['which'].startswith('used'):
+    elif (only_hist and not only_hist['which'].startswith('used')) or task.get('part') == 'fresh':
         colls = []
     else:
         colls = collections(core.rng_for(PROP, seed, 'idx:' + json.dumps(src, sort_keys=True)), n, tier)
     interner = Interner()
     mm = msg_for_model(m, interner)
     impl_out = []
+    seen = set()
     for lab, I in colls:
-        raw, problems, info = check_case(st, m, rows0, fields0, meta0, n, I)
+        # a one-subset message: every in-range collection selects the message itself; in the quick tier the encode/decode
+        # oracle runs once without and once with repeats (subset(), refusal and the model comparison run for all)
+        key = (len(I) != len(set(I))) if (n == 1 and tier == 'quick' and in_range(I, n) and 'only' not in task) else tuple(I) + (len(seen),)
+        raw, problems, info = check_case(st, m, rows0, fields0, meta0, n, I, oracle=key not in seen)
+        seen.add(key)
         if render_hash(st, m) != before or m.template_data.value.decoded_values_all_subsets != rows0:
             problems.append(('source-modified', 'the source message renders differently after subset(%r) + encode' % (I[:12],), {}))
             before = render_hash(st, m)
@@ -559,7 +579,11 @@ def run_source(task):
     hists = []
     res['histories'] = []
     if 'only' not in task:
-        for which in ([only_hist['which']] if only_hist else HISTORIES[tier]):
+        part = task.get('part')
+        plan_for = HISTORIES[tier][part] if part else HISTORIES[tier]['fresh'] + HISTORIES[tier]['used']
+        if part == 'used' and n == 1 and tier == 'quick':
+            plan_for = []       # one subset: every in-range selection is the message itself; the fresh history covers it
+        for which in ([only_hist['which']] if only_hist else plan_for):
             if which.startswith('fresh'):
                 mh, fh = st['dec'].decode_with_fields(data)
             else:
@@ -697,15 +721,17 @@ def report(ctx, res):
     src = res['src']
     name = src['file'] + ('#synth:' + src['synth'] if src.get('synth') else '')
     if res['skipped']:
-        ctx.count('skipped: ' + res['skipped'])
+        if res.get('part') != 'fresh':
+            ctx.count('skipped: ' + res['skipped'])
         return
-    ctx.count('messages')
-    ctx.count('messages compressed' if res['compressed'] else 'messages uncompressed')
-    ctx.count('messages multi-subset' if res['n'] > 1 else 'messages single-subset')
-    if src.get('synth'):
-        ctx.count('messages synthesised')
-    if res.get('not_reencodable'):
-        ctx.count('messages not re-encodable as they are (%s): subset()/refusal/correspondence only' % res['not_reencodable'])
+    if res.get('part') != 'fresh':
+        ctx.count('messages')
+        ctx.count('messages compressed' if res['compressed'] else 'messages uncompressed')
+        ctx.count('messages multi-subset' if res['n'] > 1 else 'messages single-subset')
+        if src.get('synth'):
+            ctx.count('messages synthesised')
+        if res.get('not_reencodable'):
+            ctx.count('messages not re-encodable as they are (%s): subset()/refusal/correspondence only' % res['not_reencodable'])
     for c in res['cases']:
         ctx.count('idx ' + c['label'])
         ctx.traces += 1
@@ -811,7 +837,12 @@ def run(ctx):
     ctx.rule = ('sample messages (tests/data + tests/benchmark_data) and messages synthesised from them with 2..8 subsets, compressed and '
                 'not, x index collections {single, first, last, first/last, full, reversed, random, with repeats, out of range by one on '
                 'each side, far out of range, negative}. Non-trivial: in-range collection on a multi-subset message whose result was '
-                're-encoded and decoded, or a refused out-of-range collection; distinct by (message, collection).')
+                're-encoded and decoded, or a refused out-of-range collection; distinct by (message, collection). '
+                'Plus, per message, operation histories (harness/c10hist.py) on a freshly decoded object and on the object used '
+                'above: 3-8 subset() calls (different / equal collections, refused calls in between, subsets of derived messages) '
+                'before and between the encodes, results encoded in another order / twice, caller mutation of returned lists, '
+                'source rendered / re-encoded in between; non-trivial history: >= 3 subset() calls and a result encoded after a '
+                'later subset() call.')
     files = corpus_files(ctx)
     tasks = [{'src': {'file': f}, 'seed': ctx.seed, 'tier': ctx.tier} for f in files]
     rng = ctx.rng('synth')
@@ -822,6 +853,7 @@ def run(ctx):
         tasks.append({'src': {'file': f, 'synth': '%d:%d:%d' % (ctx.seed, k, rng.randrange(10 ** 9))}, 'seed': ctx.seed, 'tier': ctx.tier})
     for t in tasks:
         t['src']['file'] = rel(t['src']['file'])
+    tasks = [dict(t, part=part) for t in tasks for part in ('used', 'fresh')]
     results = run_tasks(tasks)
     for res in results:
         if res['problems']:
@@ -830,7 +862,10 @@ def run(ctx):
         report(ctx, res)
     cli_cases(ctx, [os.path.join(core.REPO, 'tests', 'data', x) for x in ('g2nd_208.bufr', 'contrived.bufr', '207003.bufr', 'ISMD01_OKPR.bufr')])
     ctx.assumptions = [
-        'the re-encode/decode part is evaluated on the implementation (coder not modelled in this property)',
+        'the re-encode/decode part is evaluated on the implementation; C10_reencode_decode proves it for the walk-level coder model '
+        'under the hypothesis that the checked encoder accepts the selected rows',
+        'caller mutation in the histories touches only lists that subset() builds itself (outer list, section lists, list of value '
+        'lists); the value lists and parameter values (descriptor list) are shared with the source by the code as it is',
         'messages that the Encoder cannot re-encode even unmodified (tables not available without normalisation) take part in the '
         'subset()/refusal/correspondence comparison only',
         'value comparison identifies a field\'s all-ones pattern with missing using the width/scale/reference the decoder used for that field',
@@ -839,12 +874,22 @@ def run(ctx):
 
 
 def run_tasks(tasks):
+    def size(t):
+        try:
+            return os.path.getsize(os.path.join(core.REPO, t['src']['file']))
+        except OSError:
+            return 0
+    order = sorted(range(len(tasks)), key=lambda k: (-size(tasks[k]), k))      # the slow ones first; results in task order
     with multiprocessing.Pool(min(16, os.cpu_count() or 4)) as pool:
         try:
             # a worker that dies would make a plain map() wait forever
-            return pool.map_async(run_source, tasks, chunksize=1).get(timeout=6 * 3600)
+            out = pool.map_async(run_source, [tasks[k] for k in order], chunksize=1).get(timeout=6 * 3600)
         except multiprocessing.TimeoutError:
             raise core.MachineryError('worker pool did not finish')
+    results = [None] * len(tasks)
+    for k, r in zip(order, out):
+        results[k] = r
+    return results
 
 
 def replay(ctx, path):
